@@ -65,6 +65,17 @@ def run_case(rs, ctx):
             X[int(rs.integers(len(X)))] = [50.0 + float(v) for v in X[0]]  # far away: empty radius neighbourhood
             wit["ops"][-1] = dict(op, X=X)
         a, b = copy.deepcopy(m), copy.deepcopy(m)
+        if rs.integers(2):
+            # the live bandit answers the query as well (its streams advance): whatever a real query leaves behind
+            # (caches, tables) is then part of the state the next twin check starts from
+            try:
+                if rs.integers(2):
+                    m.predict(np.asarray(X, dtype=float)) if X is not None else m.predict()
+                else:
+                    m.predict_expectations(np.asarray(X, dtype=float)) if X is not None else m.predict_expectations()
+                ctx.count("live_queries")
+            except Exception:  # noqa: BLE001
+                pass
         try:
             pr = a.predict(np.asarray(X, dtype=float)) if X is not None else a.predict()
             ex = b.predict_expectations(np.asarray(X, dtype=float)) if X is not None else b.predict_expectations()
